@@ -550,11 +550,15 @@ def run_outlets_case(case, res):
         im = sim.state.instruction_memory
         objs = {}
         # (a) write_instruction one by one, listing requested in between, a few instructions patched in place
-        for i, d in enumerate(prog):
+        order = list(range(len(prog)))
+        if case.get("write_order"):
+            order = case["write_order"]
+        for n_, i in enumerate(order):
+            d = prog[i]
             o = build_instr(d, 4 * i)
             im.write_instruction(4 * i, o)
             objs[4 * i] = o
-            if i % 3 == 0:
+            if n_ % 3 == 0:
                 im.get_representation()
         for (i, d) in case["patches"]:
             if i < len(prog):
@@ -562,7 +566,11 @@ def run_outlets_case(case, res):
                 im.get_representation()
                 im.write_instruction(4 * i, o)
                 objs[4 * i] = o
-        lst = dict(im.get_representation())
+        seq_ = im.get_representation()
+        if [a for a, _ in seq_] != sorted(objs):
+            res.violation("C14", "listing-order", "%s mode: the listing gives the addresses %s, the instruction memory holds %s (the printed listing is read in this order when it is re-assembled)" % (mode, [a for a, _ in seq_][:8], sorted(objs)[:8]), case)
+            return
+        lst = dict(seq_)
         res.count("listings_after_write_instruction")
         for a, o in objs.items():
             if lst.get(a) != repr(o):
@@ -716,6 +724,8 @@ def run_shard(spec, res):
                 prog = prog + [{"m": "addi", "rd": 17, "rs1": 0, "imm": 7}, {"m": "ecall"}]  # failing ecall as the last instruction
             patches = [(rng.randrange(len(prog)), G._alu(rng, [1, 2, 3])) for _ in range(rng.choice([0, 1, 2]))] if prog else []
             case = {"kind": "outlets", "prog": prog, "regs": regs, "mem": G.init_mem(rng), "patches": patches}
+            if rng.random() < 0.5:
+                case["write_order"] = rng.sample(range(len(prog)), len(prog))
             guarded(run_case, prop, case, res)
             res.evaluations += 1
             if it < 1:
